@@ -187,6 +187,11 @@ func unmarshal1(na datamodel.NodeAssembler, tokSrc shared.TokenSource, budget *i
 //	to flow right without a peek+unpeek system.
 func unmarshal2(na datamodel.NodeAssembler, tokSrc shared.TokenSource, tk *tok.Token, budget *int64, depth int64, options DecodeOptions) error {
 	// FUTURE: check for schema.TypedNodeBuilder that's going to parse a Link (they can slurp any token kind they want).
+	if tk.Tagged && tk.Type != tok.TBytes {
+		// DAG-CBOR allows a single tag (42) and only on a byte string; the tokenizer
+		// accepts a tag in front of any item, so it has to be refused here.
+		return fmt.Errorf("unhandled cbor tag %d", tk.Tag)
+	}
 	switch tk.Type {
 	case tok.TMapOpen:
 		if depth >= options.maxDepth() {
@@ -224,6 +229,9 @@ func unmarshal2(na datamodel.NodeAssembler, tokSrc shared.TokenSource, tk *tok.T
 				}
 				return ma.Finish()
 			case tok.TString:
+				if tk.Tagged {
+					return fmt.Errorf("unhandled cbor tag %d on map key", tk.Tag)
+				}
 				*budget -= int64(len(tk.Str) + mapEntryCost)
 				if *budget < 0 {
 					return ErrAllocationBudgetExceeded
